@@ -361,12 +361,15 @@ struct RunOut {
     events: Vec<String>,
 }
 
-fn run_classgroup(n: Uint, threads: usize, outdir: PathBuf, deadline: f64) -> Result<RunOut, Value> {
+fn run_classgroup(n: Uint, threads: usize, dbl: bool, outdir: PathBuf, deadline: f64) -> Result<RunOut, Value> {
     guard_deadline(deadline, move || {
         let d = -Int::from_bits(n);
         let mut prefs = Preferences::default();
         prefs.verbosity = Verbosity::Silent;
         prefs.outdir = Some(outdir);
+        if dbl {
+            prefs.use_double = Some(true);
+        }
         prefs.threads = if threads > 1 { Some(threads) } else { None };
         let tpool = if threads > 1 {
             Some(rayon::ThreadPoolBuilder::new().num_threads(threads).build().expect("cannot create thread pool"))
@@ -480,8 +483,14 @@ pub fn run(args: &Args) -> i32 {
         if bits > 32 || c.n.digits()[0] % 5 == 0 || c.shape["kind"] == "suite" {
             tcfgs.push(4);
         }
-        for &threads in &tcfgs {
-            let case = format!("{}/t{}", c.name, threads);
+        // (threads, double large primes): the double-large-prime variation is off by default below ~250 bits, so it
+        // is switched on explicitly for a share of the cases (relations with two large primes, or the square of one)
+        let mut cfgs: Vec<(usize, bool)> = tcfgs.iter().map(|&t| (t, false)).collect();
+        if bits >= 14 && bits <= 80 && c.n.digits()[0] % 2 == 1 {
+            cfgs.push((1, true));
+        }
+        for &(threads, dbl) in &cfgs {
+            let case = if dbl { format!("{}/t{}d", c.name, threads) } else { format!("{}/t{}", c.name, threads) };
             if let Some(o) = &only {
                 if *o != case {
                     continue;
@@ -492,7 +501,7 @@ pub fn run(args: &Args) -> i32 {
             let outdir = scratch.join(case.replace('/', "_"));
             let _ = std::fs::remove_dir_all(&outdir);
             // normal time: < 1 s up to 128 bits
-            let r = run_classgroup(c.n, threads, outdir.clone(), 900.0);
+            let r = run_classgroup(c.n, threads, dbl, outdir.clone(), 900.0);
             let base = json!({"case": case, "dd": dd, "d": dn(&c.n), "threads": threads, "bits": bits, "shape": c.shape});
             let ro = match r {
                 Err(e) => {
@@ -589,6 +598,25 @@ pub fn run(args: &Args) -> i32 {
                     idxs.swap(i, j);
                 }
                 idxs.truncate(maxlines);
+                // always include (up to 25) the lines whose sieve value is divisible by the SQUARE of a listed prime
+                // above 1000 (the square of a large prime as cofactor, or a large prime met twice): chosen from the
+                // logged inputs (u, D), not from what the line says about exponents
+                let mut extra = 0;
+                for (li, line) in lines.iter().enumerate() {
+                    if extra >= 25 {
+                        break;
+                    }
+                    let Some(us) = logged.get(*line) else { continue };
+                    let Ok(u) = Uint::from_str(us[0].0.trim_start_matches('-')) else { continue };
+                    let val = u * u + c.n;
+                    let sq = line.split_whitespace().filter_map(|t| t.parse::<i64>().ok()).map(|v| v.unsigned_abs()).any(|p| {
+                        p > 1000 && p < (1 << 31) && (val % Uint::from(p * p)).is_zero()
+                    });
+                    if sq && !idxs.contains(&li) {
+                        idxs.push(li);
+                        extra += 1;
+                    }
+                }
                 idxs.sort();
             }
             for li in idxs {
